@@ -582,7 +582,11 @@ var fatalRe = regexp.MustCompile(`(?m)^(fatal error: .*|panic: .*)$`)
 // Returns the racing function pairs reported by the race detector (race build only).
 func runChild(c *lib.Ctx, exe string, race bool, ins []concIn, idPrefix string) (pairs [][2]string) {
 	arg, _ := json.Marshal(ins)
-	ctx, cancel := context.WithTimeout(context.Background(), 600*time.Second)
+	limit := 120 * time.Second // a blocked limiter must not hold the check up for long
+	if c.Thorough() {
+		limit = 600 * time.Second
+	}
+	ctx, cancel := context.WithTimeout(context.Background(), limit)
 	defer cancel()
 	cmd := exec.CommandContext(ctx, exe, "racechild", string(arg))
 	cmd.Env = append(os.Environ(), "GORACE=exitcode=0 halt_on_error=0 history_size=3")
